@@ -7,7 +7,7 @@ import ast
 from .. import astutil as A
 from .. import q
 from ..bidioms import iterates_all_bundlers
-from ..idioms import cname, sentinel_lookup, where
+from ..idioms import cname, prev_siblings, sentinel_lookup, where
 from ..re_model import CLS, MOD, REModel
 from . import c01
 
@@ -49,11 +49,12 @@ def d1_keyed_or_broadcast(ctx, rm: REModel):
             continue
         g = q.cfg(f, q.quiet_policy(repo))
         uses = []
+        prevs = prev_siblings(f.node)
         for s in A.walk_stmts(f.node.body):
             if isinstance(s, (ast.For, ast.AsyncFor)) and "self._run_bundlers" in A.norm(s.iter):
                 uses.append(("iter", s, None))
             if isinstance(s, ast.If):
-                sl = sentinel_lookup(s.test)
+                sl = sentinel_lookup(s.test, prevs.get(s))
                 if sl and sl[1] == "self._run_bundlers":
                     uses.append(("lookup", s, sl[2]))
                 elif "self._run_bundlers" in A.norm(s.test) and isinstance(s.test, ast.Compare) and isinstance(s.test.ops[0], (ast.In, ast.NotIn)):
@@ -114,7 +115,7 @@ def d2_open_rejects_duplicate_first(ctx, rm: REModel):
     reg = [s for s in A.walk_stmts(h.node.body) if isinstance(s, ast.Assign) and any(isinstance(t, ast.Subscript) and A.chain(t.value) == "self._run_bundlers" for t in s.targets)]
     ok = bool(reg) and all(key_is_msg_run(h, g, [t for t in s.targets if isinstance(t, ast.Subscript)][0].slice, s) for s in reg)
     ctx.ob("C14.D2-duplicate-key-rejected-first", cname(h, None, "the new bundler is registered under the message's run key"), ok, "" if ok else "registered under another key", where=where(h, h.node))
-    ok = bool(reg) and "RunBundler(" in A.norm(reg[0].value)
+    ok = bool(reg) and all("RunBundler(" in A.norm(q.expand_at(g, g.nodes_of(s_)[0], s_.value)) for s_ in reg if g.nodes_of(s_))
     ctx.ob("C14.D2-duplicate-key-rejected-first", cname(h, None, "each run gets a fresh RunBundler"), ok, "" if ok else "bundlers are shared between runs", where=where(h, h.node))
     cl = rm.handler("close_run")
     dels = [s for s in A.walk_stmts(cl.node.body) if isinstance(s, ast.Delete) and "self._run_bundlers[" in A.norm(s)]
